@@ -761,6 +761,10 @@ func parseBinOps(expr string, n *promParser.BinaryExpr) (src []Source) {
 						n.Op,
 						ls.IsDead,
 					)
+					if n.Op.IsComparisonOperator() && ls.Returns == promParser.ValueTypeScalar && rs.Returns == promParser.ValueTypeVector {
+						// A comparison of a number with a vector returns the value of the vector.
+						side.ReturnedNumber = rs.ReturnedNumber
+					}
 				} else if !n.Op.IsComparisonOperator() {
 					// The result of arithmetic with an unknown value is not known.
 					side.KnownReturn = false
